@@ -57,15 +57,20 @@ Definition load_parameters (pops : list string) (a : list (string * V)) (s : St)
   run_lp init_route load_parameters_ops pops a s.
 
 (** what can happen to one model object: load_parameters (provided parameters; the other names of the dictionary, which are
-    read and compared), or a fit (what the iterations did to the State, then the end-of-fit script) *)
+    read and compared), a fit (what the iterations did to the State, then the end-of-fit script), or an observer that only
+    READS the model's State (to_dict / save read the parameters and [mixing_matrix]; [parameters]; estimate works on a clone) *)
 Inductive event :=
 | EvLoad (a : list (string * V)) (cmp : list string)
-| EvFit (body : St -> St).
+| EvFit (body : St -> St)
+| EvRead (cmp : list string).
+
+Definition is_read (e : event) : bool := match e with EvRead _ => true | _ => false end.
 
 Definition run_event (pops : list string) (s : St) (e : event) : option St :=
   match e with
   | EvLoad a _ => Some (load_parameters pops a s)
   | EvFit body => end_of_fit V St get set clone stat pops (body s)
+  | EvRead _ => Some s
   end.
 
 (** a history, for any way [rn] of running one event (the script above, or the script with its caching reads) *)
@@ -78,3 +83,5 @@ Definition run_history (pops : list string) : list event -> St -> option St := r
 End Store.
 Arguments EvLoad {V St} a cmp.
 Arguments EvFit {V St} body.
+Arguments EvRead {V St} cmp.
+Arguments is_read {V St} e.
